@@ -273,6 +273,52 @@ def tlc(module, cfg, workers=None, timeout=600, env_extra=None, simulate=None, d
     return r
 
 
+
+# ----------------------------------------------------------------------------------------------
+# Apalache / TLAPS (unbounded arguments: inductive invariants of small integer specifications)
+# ----------------------------------------------------------------------------------------------
+
+def _proof_copy(tag):
+    """Apalache and tlapm litter their working directory (_apalache-out, .tlacache): each run gets its own copy of the modules"""
+    d = tempfile.mkdtemp(prefix="prf-%s-" % tag, dir=scratch_root())
+    for f in os.listdir(SPEC):
+        if f.endswith(".tla"):
+            shutil.copyfile(os.path.join(SPEC, f), os.path.join(d, f))
+    return d
+
+
+def apalache(module, init, inv, length, next_="Next", cinit=None, timeout=300):
+    """returns ("ok" | "violated" | "error", wall seconds, tail of the output)"""
+    d = _proof_copy("apa")
+    cmd = ["apalache-mc", "check", "--init=" + init, "--next=" + next_, "--inv=" + inv, "--length=%d" % length, "--out-dir=" + os.path.join(d, "out")]
+    if cinit:
+        cmd.append("--cinit=" + cinit)
+    cmd.append(module)
+    t0 = time.time()
+    rc, out, err, to = run_proc(cmd, timeout, cwd=d)
+    txt = (out or b"").decode("utf-8", "replace") + (err or b"").decode("utf-8", "replace")
+    shutil.rmtree(d, ignore_errors=True)
+    w = time.time() - t0
+    if to:
+        return "error", w, "apalache timeout after %ds" % timeout
+    if "The outcome is: NoError" in txt and rc == 0:
+        return "ok", w, txt[-400:]
+    if "The outcome is: Error" in txt or "invariant" in txt and "violated" in txt:
+        return "violated", w, txt[-1500:]
+    return "error", w, txt[-1500:]
+
+
+def tlapm(module, timeout=600):
+    """returns (proved: bool, number of obligations, wall seconds, tail of the output)"""
+    d = _proof_copy("tlaps")
+    t0 = time.time()
+    rc, out, err, to = run_proc(["tlapm", "--threads", str(NCPU), "--cleanfp", module], timeout, cwd=d)
+    txt = (out or b"").decode("utf-8", "replace") + (err or b"").decode("utf-8", "replace")
+    shutil.rmtree(d, ignore_errors=True)
+    m = re.search(r"All (\d+) obligations? proved", txt)
+    return (bool(m) and rc == 0 and not to), (int(m.group(1)) if m else 0), time.time() - t0, txt[-1500:]
+
+
 def parse_tla_print(line):
     """Parse a PrintT line of the shape <<"TAG", ..., "json string">> -> (tag, rest_raw)."""
     m = re.match(r'<<"([A-Z_]+)",\s*(.*)>>\s*$', line)
